@@ -14,7 +14,8 @@ import (
 // ---------------------------------------------------------------------------------------
 
 func init() {
-	register("R-COMPACT", "cursors that must advance only for kept elements (non-skipped results, non-NONE tokens) are keep-cursors", false, ruleCompact)
+	register("R-COMPACT", "decoded blocks are packed into consecutive buffer slots by a cursor that advances only for delivered (non-skipped) blocks", false, func(p *Prog, r *RuleResult) { ruleCompact(p, r, true, false) })
+	register("R-CHAIN-PACK", "in GetType the slot of a token in the packed chain advances only for non-NONE tokens", false, func(p *Prog, r *RuleResult) { ruleCompact(p, r, false, true) })
 	register("R-BUF-FRESH", "a shared block-buffer slot is only ever re-pointed to a fresh allocation or to a growth of itself", false, ruleBufFresh)
 	register("R-CTX-MIRROR", "encode and decode tasks publish the same context keys before creating the transform and the entropy codec", false, ruleCtxMirror)
 	register("R-READ-FULL", "Reader.Read returns fewer bytes than requested, without error, only when the stream ended", false, ruleReadFull)
@@ -81,7 +82,7 @@ func stripConvert(v ssa.Value) ssa.Value {
 	}
 }
 
-func ruleCompact(p *Prog, r *RuleResult) {
+func ruleCompact(p *Prog, r *RuleResult, doResults, doChain bool) {
 	n := 0
 	// (a) Reader.processBlock: decoded blocks are packed to the front of the buffers
 	s := resolveSide(p, "Reader")
@@ -92,6 +93,9 @@ func ruleCompact(p *Prog, r *RuleResult) {
 	pname := p.FnName(pb)
 	found := false
 	eachInstr(pb, func(i ssa.Instruction) {
+		if !doResults {
+			return
+		}
 		c := callOf(i)
 		if c == nil {
 			return
@@ -137,12 +141,12 @@ func ruleCompact(p *Prog, r *RuleResult) {
 			r.fail(pname+"#compaction", p.IPos(i), "the slot a decoded block is copied to is not a count of the delivered (non-skipped) blocks: "+why+"; Read consumes slots 0,1,2,... so with a block range that does not start on a batch boundary it returns the bytes of skipped slots")
 		}
 	})
-	if !found {
+	if !found && doResults {
 		r.info(pname+": no copy of result data into buffer slots found (compaction not checked)", p.Pos(pb.Pos()))
 	}
 	// (b) transform.GetType: NONE tokens do not take a slot of the packed chain
 	gt := p.FuncOpt("transform", "GetType")
-	if gt != nil && gt.Blocks != nil {
+	if gt != nil && gt.Blocks != nil && doChain {
 		gname := p.FnName(gt)
 		eachInstr(gt, func(i ssa.Instruction) {
 			bo, ok := i.(*ssa.BinOp)
